@@ -91,14 +91,16 @@ pub struct Layout {
     pub label_same_line: bool,
     pub brace_same_line: bool,
     pub vary_spelling: bool,
+    /// render every instruction / directive with exactly this spelling
+    pub force: Option<Spelling>,
 }
 
 impl Layout {
     pub fn plain() -> Layout {
-        Layout { blank: 0, comment: 0, indent: false, trailing_newline: true, label_same_line: false, brace_same_line: false, vary_spelling: false }
+        Layout { blank: 0, comment: 0, indent: false, trailing_newline: true, label_same_line: false, brace_same_line: false, vary_spelling: false, force: None }
     }
     pub fn random(rng: &mut Rng) -> Layout {
-        Layout { blank: rng.below(4), comment: rng.below(4), indent: rng.chance(1, 2), trailing_newline: rng.chance(3, 4), label_same_line: rng.chance(1, 3), brace_same_line: rng.chance(1, 4), vary_spelling: rng.chance(1, 2) }
+        Layout { blank: rng.below(4), comment: rng.below(4), indent: rng.chance(1, 2), trailing_newline: rng.chance(3, 4), label_same_line: rng.chance(1, 3), brace_same_line: rng.chance(1, 4), vary_spelling: rng.chance(1, 2), force: None }
     }
 }
 
@@ -125,6 +127,9 @@ impl<'a> Renderer<'a> {
         }
     }
     fn sp(&mut self) -> Spelling {
+        if let Some(s) = self.lay.force {
+            return s;
+        }
         if self.lay.vary_spelling {
             crate::checks::rand_spelling(self.rng)
         } else {
